@@ -260,19 +260,6 @@ def contract_ob(oid, function, props, case_fn, clause, kind='post', deciding=Tru
                     rp = _replay(case, wit, expect='raises:' + k_, spec_eval=spec_eval)
                     return Verdict('refuted' if r.status == 'sat' else 'unknown', r.backend, time.time() - t0,
                                    'returns although %s is required when %s' % (k_, tm.show(cond)[:200]), witness=wit, sample=sample, replay=rp)
-            # side obligations recorded during execution (definedness, bounds, callee preconditions)
-            for so in p.side:
-                nvc += 1
-                r = smt.prove(so['hyps'], so['goal'], timeout_ms=timeout_ms)
-                backends.add(r.backend)
-                if r.status != 'unsat':
-                    # helper (route) obligation: a violation only if the counter-model replays on the real code
-                    wit = _witness(case, r)
-                    rp = _replay(case, wit, expect='side', spec_eval=spec_eval)
-                    confirmed = bool(rp and rp.get('confirmed'))
-                    return Verdict('refuted' if (r.status == 'sat' and confirmed) else 'unknown', r.backend, time.time() - t0,
-                                   'side obligation %s/%s not provable: %s' % (so['kind'], so['name'], tm.show(so['goal'])[:300]),
-                                   witness=wit, sample=sample, replay=rp)
             res = p.result
             if case.shape is not None:
                 want = case.shape(res)
@@ -322,6 +309,19 @@ def contract_ob(oid, function, props, case_fn, clause, kind='post', deciding=Tru
                         return Verdict('refuted', how, time.time() - t0,
                                        'ensures `%s` fails: code %s vs spec %s' % (label, tm.show(lhs)[:300], tm.show(rhs)[:300]),
                                        witness=wit, sample=sample, replay=rp)
+            # side obligations recorded during execution (definedness, bounds, callee preconditions)
+            for so in p.side:
+                nvc += 1
+                r = smt.prove(so['hyps'], so['goal'], timeout_ms=timeout_ms)
+                backends.add(r.backend)
+                if r.status != 'unsat':
+                    # helper (route) obligation: a violation only if the counter-model replays on the real code
+                    wit = _witness(case, r)
+                    rp = _replay(case, wit, expect='side', spec_eval=spec_eval)
+                    confirmed = bool(rp and rp.get('confirmed'))
+                    return Verdict('refuted' if (r.status == 'sat' and confirmed) else 'unknown', r.backend, time.time() - t0,
+                                   'side obligation %s/%s not provable: %s' % (so['kind'], so['name'], tm.show(so['goal'])[:300]),
+                                   witness=wit, sample=sample, replay=rp)
             # frame: no write to a non-fresh storage
             for (st, what) in p.writes:
                 if st.origin != 'fresh' and not st.origin.startswith('leaf:'):
@@ -431,8 +431,11 @@ def _witness(case, r):
 def _replay(case, wit, expect, spec_eval=None):
     """Replay a witness on the real code.  The snippet returns {"got": value/list, "exception": name|None}.
     spec_eval(W) -> expected value (computed independently of the executor) or None."""
-    if not case.real_snippet or not wit or 'error' in wit:
+    battery = getattr(case, 'battery', False)      # the snippet is a fixed battery of concrete inputs: needs no witness
+    if not case.real_snippet or ((not wit or 'error' in wit) and not battery):
         return {'confirmed': False, 'note': 'no replayable witness'}
+    if battery and (not wit or 'error' in wit):
+        wit = {}
     clean = {k: v for k, v in wit.items()}
     r = real_exec(case.real_snippet, clean)
     out = {'real': r, 'expect': expect}
@@ -462,6 +465,8 @@ def _replay(case, wit, expect, spec_eval=None):
     if isinstance(res, dict) and 'ref' in res:
         out['confirmed'] = not _close(res.get('got'), res.get('ref'), case.tol)
         return out
+    out['confirmed'] = False
+    return out
     out['confirmed'] = False
     return out
 
